@@ -251,7 +251,10 @@ class Model:
         m.period = op["p"]
 
     def _inplace_guard(self, m, new, v):
-        """Finding F1 (see module docstring of c17): kept out of the domain, counted."""
+        """Finding F1 (see module docstring of c17) was repaired in /repo (commit c0c2503,
+        PdoMap.start hands a copy of its data to the task): the class is no longer kept out
+        of the domain, it is generated and judged like every other case."""
+        return True
         if m.running is not None and not self.mod and m.fresh and new != m.data:
             v.excluded = F1
             return False
